@@ -6,6 +6,8 @@ import (
 	"fmt"
 	"go/token"
 	"go/types"
+	"sort"
+	"strings"
 
 	"golang.org/x/tools/go/ssa"
 )
@@ -29,6 +31,7 @@ func (x *Exec) execInstr(fr *Frame, st *State, instr ssa.Instruction) {
 			p = &Place{Kind: PBox, Ref: r, Root: elem, Typ: elem}
 		}
 		x.storePlace(st, p, x.zeroValue(elem))
+		x.initGhostBools(st, elem, r)
 		fr.vals[ins] = VScalar{r}
 	case *ssa.Store:
 		addr := x.get(fr, ins.Addr)
@@ -1063,5 +1066,28 @@ func (x *Exec) chanSendCheck(st *State, elem types.Type, v Value, pos token.Pos)
 		env := &SpecEnv{x: x, st: st, vars: map[string]SVal{"v": {v, goT(elem)}}, pkg: x.typesPkg(x.C.ChanInvPkg[typeName(elem)])}
 		g := x.safeEvalBool(env, c, "channel protocol of "+typeName(elem))
 		x.check(st, "chan-protocol", nil, pos, x.srcAt(pos)+": "+c.Text, g)
+	}
+}
+
+// initGhostBools: a ghost field of type bool starts out false on a newly allocated object (ghost fields of other
+// types are given their value by exit clauses of constructors and are unconstrained until then).
+func (x *Exec) initGhostBools(st *State, elem types.Type, r Term) {
+	n, ok := elem.(*types.Named)
+	if !ok || n.Obj().Pkg() == nil || x.C == nil {
+		return
+	}
+	prefix := x.P.Short[n.Obj().Pkg().Path()] + "." + n.Obj().Name() + "."
+	var names []string
+	for k, gf := range x.C.GhostFields {
+		if strings.HasPrefix(k, prefix) && gf.T != nil && gf.T.Kind == "name" && gf.T.Name == "bool" && gf.Name != "$wf" {
+			names = append(names, k)
+		}
+	}
+	sort.Strings(names)
+	for _, k := range names {
+		gf := x.C.GhostFields[k]
+		arr := "G|" + gf.Pkg + "." + gf.Owner + "." + gf.Name + "|"
+		a := x.heapGet(st, arr, ArrSort(SInt, SBool))
+		x.heapSet(st, arr, x.define("h", Store(a, r, False)))
 	}
 }
